@@ -64,6 +64,7 @@ States are memoised: a refused ceremony leaves the state unchanged, so its subtr
 
 from __future__ import annotations
 
+import os
 import copy
 from datetime import datetime, timedelta, timezone
 from pathlib import Path
@@ -691,12 +692,15 @@ def run(tier: str, driver_ok: bool) -> Result:
     work = R.scratch_dir("C10")
     runs: list[dict[str, Any]] = []
     quick = tier == "quick"
+    # the DEBUG-logging second pass of ./check repeats the ASCII tree on a smaller budget and one text profile of each family
+    # (logging does not interact with the spelling of ids; the whole pass must stay within the quick tier's time)
+    second = bool(os.environ.get("VERIF_PASS2_OUT"))
     try:
-        explore(res, r, runs, work, schemas, tier, text=None, budget=340 if quick else 2600, depth_max=3 if quick else 4, full=True)
-        for text in R.TEXT_PROFILES.values():
+        explore(res, r, runs, work, schemas, tier, text=None, budget=(120 if second else 340) if quick else 2600, depth_max=3 if quick else 4, full=True)
+        for text in list(R.TEXT_PROFILES.values())[: 1 if second else None]:
             explore(res, lib.rng("C10:" + text.name), runs, work, schemas, tier, text=text, budget=32 if quick else 100, depth_max=3, full=False)
         # XML-special content handed over verbatim, and identifiers related as strings: every kind of re-use at every state
-        for text in list(R.XML_TEXT_PROFILES.values()) + list(R.RELATED_TEXT_PROFILES.values()):
+        for text in (list(R.XML_TEXT_PROFILES.values()) + list(R.RELATED_TEXT_PROFILES.values()))[: 1 if second else None]:
             explore(res, lib.rng("C10:" + text.name), runs, work, schemas, tier, text=text, budget=20 if quick else 50, depth_max=2 if quick else 3, full=False, must=tuple(REUSE_ALONE))
         sections_stream(res, runs, work, schemas, tier)
         policy_change_stream(res, runs, work, schemas, tier)
